@@ -272,6 +272,15 @@ VARIANTS = [
     V("c17-args-swapped", [("src/bash.rs", '_{command}_cmd_$command_id "$completed_prefix" "$matched_prefix"', '_{command}_cmd_$command_id "$matched_prefix" "$completed_prefix"')], {"C17": "SK-CMD:V3:within-word complete"}),
     V("c17-filter-with-other-prefix", [("src/bash.rs", '{MATCH_FN_NAME} "$completed_prefix" subword_candidates filtered_candidates', '{MATCH_FN_NAME} "$matched_prefix" subword_candidates filtered_candidates')], {"C17": "SK-CMD:V5"}),
     V("c17-command-text-untrimmed-benign", [("src/bash.rs", "            // Edge case: bash syntax errors on empty function bodies", "            // Edge case: bash reports a syntax error on an empty function body")], {"C17": None}),
+    # ---------------- seeds against the earlier checks (each written by a sub-agent that saw only the property text)
+    V("seed-C02-m1-preorder-expansion", [("@patch", "seeded/C02-m1/patch.diff")], {"C02": "TOPO:check::traverse_nonterminal_dependencies_dfs", "C14": "TOPO"}),
+    V("seed-C02-m2-fallback-stale-children", [("@patch", "seeded/C02-m2/patch.diff")], {"C02": "RP:check::specialize_nonterminals:Fallback.children", "C11": "RP:check::specialize_nonterminals:Fallback.children"}),
+    V("seed-C04-m3-fish-descr-id-by-position", [("@patch", "seeded/C04-m3/patch.diff")], {"C04": "DESCRLINK:fish::write_literals"}),
+    V("seed-C08-m3-shell-filter-before-noncommand-check", [("@patch", "seeded/C08-m3/patch.diff")], {"C08": "DOM:parse::Grammar::get_specializations"}),
+    V("seed-C09-m2-pool-appends", [("@patch", "seeded/C09-m2/patch.diff")], {"C09": "INTERN-DEDUP:dfa::DFAInternPool::intern"}),
+    V("seed-C09-m3-refs-skip-fallback", [("@patch", "seeded/C09-m3/patch.diff")], {"C09": "TC:check::do_get_nonterm_refs:Fallback.children", "C14": "TC:check::do_get_nonterm_refs:Fallback.children"}),
+    V("seed-C14-m1-raw-multispace-at-defsign", [("@patch", "seeded/C14-m1/patch.diff")], {"C14": "BLANKS:parse::nonterm_def_statement"}),
+    V("seed-C15-m3-builtin-filter-all-defs", [("@patch", "seeded/C15-m3/patch.diff")], {"C15": "LOOKUP:check::specialize_nonterminals:plain-definition-overrides-builtin"}),
     # ---------------- C10
     V("c10-std-hashset-in-dfa", [("src/dfa.rs", "use hashbrown::{HashMap, HashSet};", "use hashbrown::HashMap;\nuse std::collections::HashSet;")], {"C10": "HASHORD:dfa::dfa_from_regex"}),
     V("c10-env-var", [("src/lib.rs", '    let version = env!("COMPLGEN_VERSION");', '    let version = std::env::var("COMPLGEN_VERSION").unwrap_or_default();')], {"C10": "AMBIENT:signature"}),
